@@ -81,7 +81,11 @@ func body(c *explore.Chooser) *explore.Case {
 		{id: "D", file: "rules/one.yml", kind: "alerting", name: "D", expr: "up == 0"},
 	}
 	for i, f := range []string{"rules/one.yml", "rules/two.yml", "rules/two.yml"} {
-		e := exprChoices[c.Free(nexpr, fmt.Sprintf("consumer%d.expr", i))]
+		ne := nexpr
+		if i > 0 && ne > nExprQuick {
+			ne = nExprQuick // thorough: the first consumer ranges over all 9 expressions, the others over the quick 4
+		}
+		e := exprChoices[c.Free(ne, fmt.Sprintf("consumer%d.expr", i))]
 		kind, name := "alerting", fmt.Sprintf("Consumer%d", i)
 		if i == 2 {
 			kind, name = "recording", "consumer:two"
@@ -168,7 +172,7 @@ func body(c *explore.Chooser) *explore.Case {
 	// it adds a provider of its own to a file the branch touches. Removal is judged against the fork point, so
 	// neither changes what the branch removed.
 	mainMoves := 0
-	if extra == 0 || tier == "thorough" { // quick: only without an extra provider
+	if extra == 0 { // only without an extra provider (the product with the extras would be a time-capped sample)
 		mainMoves = c.Free(3, "base-branch-after-fork")
 	}
 	mainName := []string{"unchanged", "removes the same rules", "adds a recording rule to the first file"}[mainMoves]
@@ -329,7 +333,7 @@ var tier string
 func main() {
 	explore.Main(&explore.Config{
 		Property: "C20", Level: "exploration",
-		Rule:        "rule universe: recording provider A and alert D in file one, three consumers (two alerts, one recording rule) in files one/two whose expressions range over {no reference, sum(A), ALERTS{alertname=\"D\"}, an expression with several ALERTS and metric selectors where the interesting one is not first} (thorough adds A, ALERTS_FOR_STATE, both, a regexp alertname matcher, rate+absent), optionally a second provider A or an alert named A (thorough: also a second alert D) in the other file; x every non-empty subset of rules removed on the branch (files vanish when emptied) (thorough: x removal in one or two commits); real git repository, real finders, real rule/dependency check under the ci command; compared with the generator's reference dependency graph: warning iff dependants remain and no same-kind same-name replacement remains, and the listed dependants are exactly the dependants; the base branch may move on after the fork (removing the same rules itself, or adding a rule to the first file; quick: only without an extra provider)",
+		Rule:        "rule universe: recording provider A and alert D in file one, three consumers (two alerts, one recording rule) in files one/two whose expressions range over {no reference, sum(A), ALERTS{alertname=\"D\"}, an expression with several ALERTS and metric selectors where the interesting one is not first} (thorough adds A, ALERTS_FOR_STATE, both, a regexp alertname matcher, rate+absent), optionally a second provider A or an alert named A (thorough: also a second alert D) in the other file; x every non-empty subset of rules removed on the branch (files vanish when emptied) (thorough: x removal in one or two commits); real git repository, real finders, real rule/dependency check under the ci command; compared with the generator's reference dependency graph: warning iff dependants remain and no same-kind same-name replacement remains, and the listed dependants are exactly the dependants; the base branch may move on after the fork (removing the same rules itself, or adding a rule to the first file; only without an extra provider); thorough: first consumer over all 9 expressions, a fourth extra-provider kind, removals split over two commits - sized to complete",
 		Assumptions: []string{"alertname=~ selectors are a permissive cell: pint counts equality matchers only, the property speaks of selecting 'with its alertname'", "default configuration, offline"},
 		Spaces: []*explore.Space{{Name: "removals", Body: body, Bound: func(string) int { return -1 }, Setup: func(t string) {
 			tier = t
